@@ -1,8 +1,11 @@
 #!/usr/bin/env python3
 """Behaviour-preserving refactorings (written by sub-agents that saw nothing of /verif) vs. the checks:
 a check may answer 0 (still proved) or 2 (undecided) but must never raise an alarm (exit 1)."""
-import json, os, re, subprocess, sys, time
+import json, os, re, shutil, subprocess, sys, time
 ROOT = '/verif'
+# evidence files are rewritten by every check run: keep the clean-tree ones (evidence_backup) and put them back at the end
+if os.path.isdir(f'{ROOT}/evidence'):
+    shutil.rmtree('/tmp/evidence_backup', ignore_errors=True); shutil.copytree(f'{ROOT}/evidence', '/tmp/evidence_backup')
 PROPS = {'suggestion.rs': ['C03'], 'lib.rs': ['C13'], 'lexing': ['C01', 'C02'], 'plain_english': ['C01', 'C02'], 'edit_distance': ['C15', 'C01'], 'span.rs': ['C01', 'C03'],
          'number.rs': ['C17', 'C02'], 'patterns': ['C01', 'C03'], 'pattern_linter': ['C01', 'C03'], 'document.rs': ['C02', 'C01'], 'merged_dictionary': ['C15'], 'mask': ['C02', 'C01'],
          'pos_conv': ['C08'], 'jsdoc': ['C01']}
@@ -43,3 +46,6 @@ with open(f'{base}/RESULTS.md', 'w') as f:
     f.write('# Behaviour-preserving refactorings vs. checks (exit 0 = still proved, 2 = undecided, 1 = false alarm)\n\n| refactoring | files | check exits | verdict |\n|---|---|---|---|\n')
     for r in allrows:
         f.write('| ' + ' | '.join(r) + ' |\n')
+
+if os.path.isdir('/tmp/evidence_backup'):
+    shutil.rmtree(f'{ROOT}/evidence', ignore_errors=True); shutil.copytree('/tmp/evidence_backup', f'{ROOT}/evidence')
